@@ -2,7 +2,7 @@
    One contract per plugin: the handler result as an explicit function of the entitlement
    condition; upd_opt_exactly says what "adds exactly (code -> value), once" means; the
    decode theorems show the encodings carry the configured values. *)
-From Verif Require Import Base BaseProofs Net NetProofs Msg4 Msg6 Chain ChainProofs Server4 Server4Proofs Server6 Server6Proofs Plugins4 Plugins6 Setup PluginRun PluginProofs PluginSpecs PluginExamples.
+From Verif Require Import Base BaseProofs Net NetProofs Msg4 Msg6 Chain ChainProofs Server4 Server4Proofs Server6 Server6Proofs Plugins4 Plugins6 Setup PluginRun PluginProofs PluginSpecs PluginExamples LabelCodec RouteCodec.
 Open Scope N_scope.
 
 Theorem upd_opt_exactly :
@@ -159,6 +159,23 @@ Theorem plug4_hdr_preserving :
 Proof. exact (@PluginProofs.plug4_hdr_preserving). Qed.
 Print Assumptions plug4_hdr_preserving.
 
+
+Theorem searchdomains_decode :
+  forall (ds : list bytes) (fuel : nat),
+  Forall domain_ok ds ->
+  (length (enc_labels ds) < fuel)%nat ->
+  dec_names fuel (enc_labels ds) [] = Some (map (fun d : bytes => split_dot d []) ds).
+Proof. exact (@LabelCodec.dec_enc_labels). Qed.
+Print Assumptions searchdomains_decode.
+
+Theorem staticroutes_decode :
+  forall rs : list route,
+  Forall route_ok rs ->
+  exists b : bytes,
+  enc_routes rs = Ok b /\
+  (forall fuel : nat, (length b < fuel)%nat -> dec_routes fuel b = Some (map route_view rs)).
+Proof. exact (@RouteCodec.dec_enc_routes). Qed.
+Print Assumptions staticroutes_decode.
 
 (* Non-vacuity (proofs/PluginExamples.v): accepted configurations exist *)
 Example hypotheses_satisfiable :
